@@ -215,6 +215,7 @@ template <class K, class V> static bool same(const std::unordered_map<K, V>& a, 
 // ------------------------------------------------------------------ round trip
 struct Cfg { bool stream; int enc; bool bom; int pretty; };
 static std::string g_stage;
+static std::string g_doc;       // the saved document (kept for diagnosis)
 
 static std::string cat_of_current_exception() {
 	try { throw; }
@@ -241,13 +242,13 @@ static std::string roundtrip(const T& value, const Cfg& c, const SerializationOp
 	if (c.stream) {
 		std::stringstream ss;
 		SaveObject<TArchive>(value, ss, o);
-		g_stage = "LOAD";
+		g_stage = "LOAD"; g_doc = ss.str();
 		ss.seekg(0);
 		LoadObject<TArchive>(loaded, ss, o);
 	} else {
 		typename TArchive::preferred_output_format out;
 		SaveObject<TArchive>(value, out, o);
-		g_stage = "LOAD";
+		g_stage = "LOAD"; g_doc.assign(reinterpret_cast<const char*>(out.data()), out.size() * sizeof(out[0]));
 		LoadObject<TArchive>(loaded, out, o);
 	}
 	return same(value, loaded) ? "OK" : "DIFF";
@@ -260,8 +261,8 @@ static std::string rt_type(Rng& r, const Cfg& c) {
 	else { Wrap<T> w; w.v = gen<T>(r); Wrap<T> l;
 		struct Eq { static bool eq(const Wrap<T>& a, const Wrap<T>& b) { return same(a.v, b.v); } };
 		g_stage = "SAVE";
-		if (c.stream) { std::stringstream ss; SaveObject<TArchive>(w, ss, o); g_stage = "LOAD"; ss.seekg(0); LoadObject<TArchive>(l, ss, o); }
-		else { typename TArchive::preferred_output_format out; SaveObject<TArchive>(w, out, o); g_stage = "LOAD"; LoadObject<TArchive>(l, out, o); }
+		if (c.stream) { std::stringstream ss; SaveObject<TArchive>(w, ss, o); g_stage = "LOAD"; g_doc = ss.str(); ss.seekg(0); LoadObject<TArchive>(l, ss, o); }
+		else { typename TArchive::preferred_output_format out; SaveObject<TArchive>(w, out, o); g_stage = "LOAD"; g_doc.assign(reinterpret_cast<const char*>(out.data()), out.size() * sizeof(out[0])); LoadObject<TArchive>(l, out, o); }
 		return Eq::eq(w, l) ? "OK" : "DIFF"; }
 }
 
@@ -328,9 +329,12 @@ int main() {
 			else if (a == "xml") res = rt_catalogue<XmlArchive, false>(ty, r, c);
 			else if (a == "csv") res = rt_csv(ty, r, c, c.pretty);
 			else res = "UNSUPPORTED";
+			if (res != "OK" && res != "UNSUPPORTED" && std::getenv("VERIF_RT_DEBUG")) res += " doc=" + vh::fmt_hex(g_doc.substr(0, 400));
 			std::cout << res << std::endl;
 		} catch (...) {
-			std::cout << g_stage << "-EXC:" << cat_of_current_exception() << std::endl;
+			std::string res = g_stage + "-EXC:" + cat_of_current_exception();
+			if (std::getenv("VERIF_RT_DEBUG")) res += " doc=" + vh::fmt_hex(g_doc.substr(0, 400));
+			std::cout << res << std::endl;
 		}
 	}
 	return 0;
